@@ -206,7 +206,9 @@ def r3_weights(chk):
         a0 = c.args[0] if c.args else None
         if call_name(c) == "np.take_along_axis":
             ax = kwarg(c, "axis") or (c.args[2] if len(c.args) > 2 else None)
-            if not (a0 is not None and norm(a0) == tbl and ax is not None and norm(ax) in ("1", "-1")):
+            from ..util import strip_shape_wrappers
+
+            if not (a0 is not None and norm(strip_shape_wrappers(a0)) == tbl and ax is not None and norm(ax) in ("1", "-1")):
                 okt, why = False, f"`{short(c, 70)}` does not select along the atom axis"
             continue
         loops_i = [l for l in walk_no_nested(fi.node) if isinstance(l, ast.For) and any(x is c for x in ast.walk(l))]
@@ -217,9 +219,31 @@ def r3_weights(chk):
         if not (isinstance(a0, ast.Subscript) and norm(a0.value) == tbl and ivar is not None and norm(a0.slice) == ivar and kwarg(c, "axis") is None):
             okt, why = False, f"`{short(c, 70)}` takes from the flattened table (np.take without axis flattens): every conformer reads the values of conformer 0"
     chk.decide(okt, "C19.R3", key, fi.where(takes[0] if takes else None), f"np.take({tbl}[i], ...) inside the conformer loop", why or "lookup not per conformer")
+    # when the nearest-atom table is computed here, its cut-off must reach to the surface of the largest sphere: a point inside a sphere
+    # but farther than the default 2.0 from every atom would otherwise have no nearest atom and lose its value
+    from ..canon import Env as _Eni
+
+    radii_p = fi.params()[3] if len(fi.params()) > 3 else "atomic_radii"
+    nn = [x for x in walk_no_nested(fi.node) if isinstance(x, ast.Call) and call_name(x) == "nearest_atom_index"]
+    for x in nn:
+        md = kwarg(x, "max_dist") or (x.args[2] if len(x.args) > 2 else None)
+        mdx = norm(_Eni(fi.node).expand(md, keep={radii_p}, at=x)) if md is not None else None
+        okc = mdx in (f"np.max({radii_p})", f"{radii_p}.max()", f"max({radii_p})", f"np.amax({radii_p})", f"np.max({radii_p}, axis=0)")
+        chk.decide(okc, "C19.R3", f"{fi.key}:nearest-atom-cutoff-covers-largest-sphere", fi.where(x), f"max_dist = {mdx}",
+                   f"the nearest-atom table is computed with max_dist = {mdx or 'the default 2.0'}: grid points inside a sphere of radius > that (Si, Sn, Pd, Na ...) but farther from "
+                   "every atom have no nearest atom and get 0 instead of that atom's value")
     ae = prog.func(f"{GB}:aeif")
     c = [x for x in walk_no_nested(ae.node) if isinstance(x, ast.Call) and call_name(x) == "atomic_indicator_field"]
-    ok = len(c) == 1 and kwarg(c[0], "weighted") is not None and norm(kwarg(c[0], "weighted")) == "weighted" and norm(c[0].args[2]) == "charges" and norm(c[0].args[3]) == "vdw_radii"
+    from ..canon import Env as _Eae
+
+    ok = len(c) == 1 and kwarg(c[0], "weighted") is not None and norm(kwarg(c[0], "weighted")) == "weighted" and len(c[0].args) >= 4
+    if ok:
+        ens_p = ae.params()[0]
+        a2 = norm(_Eae(ae.node).expand(c[0].args[2], keep={ens_p}, at=c[0]))
+        a3 = _Eae(ae.node).expand(c[0].args[3], keep={ens_p}, at=c[0])
+        radii = [g for g in ast.walk(a3) if isinstance(g, (ast.ListComp, ast.GeneratorExp)) and len(g.generators) == 1 and norm(g.generators[0].iter) == f"{ens_p}.atoms"
+                 and norm(g.elt) == f"{norm(g.generators[0].target)}.vdw_radius" and not g.generators[0].ifs]
+        ok = f"{ens_p}.atomic_charges" in a2 and "vdw" not in a2 and len(radii) == 1
     chk.decide(ok, "C19.R3", f"{ae.key}:delegation", ae.where(), "aeif -> atomic_indicator_field(ens, grid, charges, vdw radii, weighted=weighted)",
                "aeif does not hand charges, van der Waals radii and `weighted` to atomic_indicator_field")
 
